@@ -419,6 +419,11 @@ def rule_ef(ck, R, eng, ps):
         last = sym.mem_read(p.mem, ('f', ('&', ('f', ap, 'entry')), 'last'))
         count = sym.mem_read(p.mem, ('f', ('&', ('f', ap, 'entry')), 'count'))
         nxt = p.calls('ra_first_entry_of_next')
+        if p.calls('ra_addr_is_part_of'):
+            ents = [c for c in p.cond_terms() if c[0] == 'cmp' and strip_cast(c[2]) == he and 'entries' in fmt(c[3])]
+            if not any(c[1] == '<' for c in ents):
+                bad = bad or ('t->entry[running index].address is read on a path where index < t->entries is not established (%s): one element beyond the entry table is read'
+                              % ('; '.join(fmt(c) for c in ents) or 'no test'))
         if nxt:
             if first != he:
                 bad = 'entry.first = %s, expected the running entry index' % fmt(first)
